@@ -5,6 +5,7 @@ mod c17;
 mod delta;
 mod hubctl;
 mod hubsched;
+mod hubwire;
 
 fn main() {
     let mut it = std::env::args().skip(1);
@@ -17,6 +18,8 @@ fn main() {
         "c16" => delta::main_pairs(args, "c16"),
         "c05" => delta::main_c05(args),
         "c03" => hubsched::main(args),
+        "c12" => hubwire::main_c12(args),
+        "c11" => hubwire::main_c11(args),
         _ => {
             eprintln!("unknown command {cmd}");
             2
